@@ -3,78 +3,101 @@ import OjgVerif.Conv.Model
 inductive type. -/
 namespace OjgVerif.Conv
 
-theorem toForm_isNull (f : Form) (t : T) : (t.toForm f).isNull = t.isNull := by
-  cases t <;> simp [T.toForm, T.isNull]
+theorem toForm_isNull (f : Form) (b : Bool) (t : T) : (t.toForm f b).isNull = t.isNull := by
+  cases t <;> cases b <;> simp [T.toForm, T.isNull]
 
 mutual
-  theorem toForm_toForm (f g : Form) : ∀ t : T, (t.toForm f).toForm g = t.toForm g
+  theorem toForm_toForm (f g : Form) (b1 b2 : Bool) :
+      ∀ t : T, (t.toForm f b1).toForm g b2 = t.toForm g (b1 || b2)
     | .null => rfl
     | .bool _ _ => rfl
     | .int _ _ => rfl
     | .flt _ _ => rfl
     | .str _ _ => rfl
     | .big _ _ => rfl
-    | .arr _ xs => by simp [T.toForm, toFormList_toFormList f g xs]
-    | .obj _ kvs => by simp [T.toForm, toFormKvs_toFormKvs f g kvs]
-  theorem toFormList_toFormList (f g : Form) :
-      ∀ xs : List T, T.toFormList g (T.toFormList f xs) = T.toFormList g xs
+    | .nilArr _ => by cases b1 <;> cases b2 <;> simp [T.toForm, T.toFormList]
+    | .nilObj _ => by cases b1 <;> cases b2 <;> simp [T.toForm, T.toFormKvs]
+    | .arr _ xs => by simp [T.toForm, toFormList_toFormList f g b1 b2 xs]
+    | .obj _ kvs => by simp [T.toForm, toFormKvs_toFormKvs f g b1 b2 kvs]
+  theorem toFormList_toFormList (f g : Form) (b1 b2 : Bool) :
+      ∀ xs : List T, T.toFormList g b2 (T.toFormList f b1 xs) = T.toFormList g (b1 || b2) xs
     | [] => rfl
-    | x :: xs => by simp [T.toFormList, toForm_toForm f g x, toFormList_toFormList f g xs]
-  theorem toFormKvs_toFormKvs (f g : Form) :
-      ∀ xs : List (String × T), T.toFormKvs g (T.toFormKvs f xs) = T.toFormKvs g xs
+    | x :: xs => by
+      simp [T.toFormList, toForm_toForm f g b1 b2 x, toFormList_toFormList f g b1 b2 xs]
+  theorem toFormKvs_toFormKvs (f g : Form) (b1 b2 : Bool) :
+      ∀ xs : List (String × T), T.toFormKvs g b2 (T.toFormKvs f b1 xs) = T.toFormKvs g (b1 || b2) xs
     | [] => rfl
-    | (k, x) :: xs => by simp [T.toFormKvs, toForm_toForm f g x, toFormKvs_toFormKvs f g xs]
+    | (k, x) :: xs => by
+      simp [T.toFormKvs, toForm_toForm f g b1 b2 x, toFormKvs_toFormKvs f g b1 b2 xs]
 end
 
 mutual
-  theorem toForm_of_pure (f : Form) : ∀ t : T, t.pure f = true → t.toForm f = t
-    | .null, _ => rfl
-    | .bool g _, h => by simp [T.pure] at h; simp [T.toForm, h]
-    | .int g _, h => by simp [T.pure] at h; simp [T.toForm, h]
-    | .flt g _, h => by simp [T.pure] at h; simp [T.toForm, h]
-    | .str g _, h => by simp [T.pure] at h; simp [T.toForm, h]
-    | .big g _, h => by simp [T.pure] at h
-    | .arr g xs, h => by
-      simp [T.pure] at h; simp [T.toForm, h.1, toFormList_of_pure f xs h.2]
-    | .obj g kvs, h => by
-      simp [T.pure] at h; simp [T.toForm, h.1, toFormKvs_of_pure f kvs h.2]
-  theorem toFormList_of_pure (f : Form) : ∀ xs : List T, T.pureList f xs = true → T.toFormList f xs = xs
-    | [], _ => rfl
-    | x :: xs, h => by
+  /-- writing a value in the form it already has changes nothing — provided nil containers are not
+  filled (`b = false`) or there are none -/
+  theorem toForm_of_pure (f : Form) (b : Bool) :
+      ∀ t : T, t.pure f = true → (b = false ∨ t.noNil = true) → t.toForm f b = t
+    | .null, _, _ => rfl
+    | .bool g _, h, _ => by simp [T.pure] at h; simp [T.toForm, h]
+    | .int g _, h, _ => by simp [T.pure] at h; simp [T.toForm, h]
+    | .flt g _, h, _ => by simp [T.pure] at h; simp [T.toForm, h]
+    | .str g _, h, _ => by simp [T.pure] at h; simp [T.toForm, h]
+    | .big g _, h, _ => by simp [T.pure] at h
+    | .nilArr g, h, h2 => by
+      simp [T.pure] at h; simp [T.noNil] at h2; simp [T.toForm, h, h2]
+    | .nilObj g, h, h2 => by
+      simp [T.pure] at h; simp [T.noNil] at h2; simp [T.toForm, h, h2]
+    | .arr g xs, h, h2 => by
+      simp [T.pure] at h; simp only [T.noNil] at h2
+      simp [T.toForm, h.1, toFormList_of_pure f b xs h.2 h2]
+    | .obj g kvs, h, h2 => by
+      simp [T.pure] at h; simp only [T.noNil] at h2
+      simp [T.toForm, h.1, toFormKvs_of_pure f b kvs h.2 h2]
+  theorem toFormList_of_pure (f : Form) (b : Bool) :
+      ∀ xs : List T, T.pureList f xs = true → (b = false ∨ T.noNilList xs = true) →
+        T.toFormList f b xs = xs
+    | [], _, _ => rfl
+    | x :: xs, h, h2 => by
       simp [T.pureList] at h
-      simp [T.toFormList, toForm_of_pure f x h.1, toFormList_of_pure f xs h.2]
-  theorem toFormKvs_of_pure (f : Form) :
-      ∀ xs : List (String × T), T.pureKvs f xs = true → T.toFormKvs f xs = xs
-    | [], _ => rfl
-    | (k, x) :: xs, h => by
+      have hx : b = false ∨ x.noNil = true := h2.imp id fun h' => by simp [T.noNilList] at h'; exact h'.1
+      have hr : b = false ∨ T.noNilList xs = true := h2.imp id fun h' => by simp [T.noNilList] at h'; exact h'.2
+      simp [T.toFormList, toForm_of_pure f b x h.1 hx, toFormList_of_pure f b xs h.2 hr]
+  theorem toFormKvs_of_pure (f : Form) (b : Bool) :
+      ∀ xs : List (String × T), T.pureKvs f xs = true → (b = false ∨ T.noNilKvs xs = true) →
+        T.toFormKvs f b xs = xs
+    | [], _, _ => rfl
+    | (k, x) :: xs, h, h2 => by
       simp [T.pureKvs] at h
-      simp [T.toFormKvs, toForm_of_pure f x h.1, toFormKvs_of_pure f xs h.2]
+      have hx : b = false ∨ x.noNil = true := h2.imp id fun h' => by simp [T.noNilKvs] at h'; exact h'.1
+      have hr : b = false ∨ T.noNilKvs xs = true := h2.imp id fun h' => by simp [T.noNilKvs] at h'; exact h'.2
+      simp [T.toFormKvs, toForm_of_pure f b x h.1 hx, toFormKvs_of_pure f b xs h.2 hr]
 end
 
 mutual
-  theorem pure_toForm (f f' : Form) : ∀ t : T, t.pure f' = true → (t.toForm f).pure f = true
+  theorem pure_toForm (f f' : Form) (b : Bool) : ∀ t : T, t.pure f' = true → (t.toForm f b).pure f = true
     | .null, _ => rfl
     | .bool g _, _ => by simp [T.toForm, T.pure]
     | .int g _, _ => by simp [T.toForm, T.pure]
     | .flt g _, _ => by simp [T.toForm, T.pure]
     | .str g _, _ => by simp [T.toForm, T.pure]
     | .big g _, h => by simp [T.pure] at h
+    | .nilArr g, _ => by cases b <;> simp [T.toForm, T.pure, T.pureList]
+    | .nilObj g, _ => by cases b <;> simp [T.toForm, T.pure, T.pureKvs]
     | .arr g xs, h => by
-      simp [T.pure] at h; simp [T.toForm, T.pure, pureList_toFormList f f' xs h.2]
+      simp [T.pure] at h; simp [T.toForm, T.pure, pureList_toFormList f f' b xs h.2]
     | .obj g kvs, h => by
-      simp [T.pure] at h; simp [T.toForm, T.pure, pureKvs_toFormKvs f f' kvs h.2]
-  theorem pureList_toFormList (f f' : Form) :
-      ∀ xs : List T, T.pureList f' xs = true → T.pureList f (T.toFormList f xs) = true
+      simp [T.pure] at h; simp [T.toForm, T.pure, pureKvs_toFormKvs f f' b kvs h.2]
+  theorem pureList_toFormList (f f' : Form) (b : Bool) :
+      ∀ xs : List T, T.pureList f' xs = true → T.pureList f (T.toFormList f b xs) = true
     | [], _ => rfl
     | x :: xs, h => by
       simp [T.pureList] at h
-      simp [T.toFormList, T.pureList, pure_toForm f f' x h.1, pureList_toFormList f f' xs h.2]
-  theorem pureKvs_toFormKvs (f f' : Form) :
-      ∀ xs : List (String × T), T.pureKvs f' xs = true → T.pureKvs f (T.toFormKvs f xs) = true
+      simp [T.toFormList, T.pureList, pure_toForm f f' b x h.1, pureList_toFormList f f' b xs h.2]
+  theorem pureKvs_toFormKvs (f f' : Form) (b : Bool) :
+      ∀ xs : List (String × T), T.pureKvs f' xs = true → T.pureKvs f (T.toFormKvs f b xs) = true
     | [], _ => rfl
     | (k, x) :: xs, h => by
       simp [T.pureKvs] at h
-      simp [T.toFormKvs, T.pureKvs, pure_toForm f f' x h.1, pureKvs_toFormKvs f f' xs h.2]
+      simp [T.toFormKvs, T.pureKvs, pure_toForm f f' b x h.1, pureKvs_toFormKvs f f' b xs h.2]
 end
 
 /-- if some invariant of the options rules out dropping and survives the recursive calls, every
@@ -93,6 +116,8 @@ mutual
     | .flt _ _, _, _ => rfl
     | .str _ _, _, _ => rfl
     | .big _ _, _, _ => rfl
+    | .nilArr _, _, _ => rfl
+    | .nilObj _, _, _ => rfl
     | .arr _ xs, o, h => by simp [T.keeps, keepsList_of_inv inv xs _ (inv.arr o h)]
     | .obj _ kvs, o, h => by simp [T.keeps, keepsKvs_of_inv inv kvs o h]
   theorem keepsList_of_inv {k : Kind} {P : Opt → Prop} (inv : KeepInv k P) :
